@@ -168,7 +168,8 @@ def gen_cases(rng, tier):
         kind = o["kind"]
         name = o["name"]
         if kind in ("reduce", "reduce2", "default"):
-            exhaustive = (o["fam"] == "add" and T == "i4" and o["dtype"] == "N" and o.get("grp") == "add") or (o["fam"] == "tag" and o["init"] == "N")
+            exhaustive = ((o["fam"] == "add" and T == "i4" and o["dtype"] == "N" and o.get("grp") == "add") or (o["fam"] == "tag" and o["init"] == "N")
+                          or o["fam"].startswith("logical"))
             budget = None if exhaustive else (14 if quick else 150)
             multi = o.get("multi_axis", True)
             combos = []
@@ -191,9 +192,11 @@ def gen_cases(rng, tier):
                 add(o, s, data, " ".join(args.split()), axis=ax, keepdims=bool(kd), initial=(init if o["init"] == "Y" else None))
         elif kind == "accumulate":
             combos = [(s, ax) for s in shapes for ax in range(-len(s), len(s))]
-            exhaustive = name in ("acc_add_i4_dN", "acc_tag_u8_dN", "acc_cumsum_i4_dN")
-            if not exhaustive or not quick:
-                combos = rng.sample(combos, min(len(combos), 24 if quick else (1500 if exhaustive else 200)))
+            # exhaustive over (shape, axis) in both tiers (thorough: sampled for the larger scope beyond the exhaustive dim<=3 part)
+            if not quick:
+                small = [c for c in combos if len(c[0]) <= 3 and max(c[0]) <= 3]
+                rest = [c for c in combos if not (len(c[0]) <= 3 and max(c[0]) <= 3)]
+                combos = small + rng.sample(rest, min(len(rest), 600))
             for s, ax in combos:
                 data = gen_data(rng, o, int(np.prod(s)))
                 groups = accumulate_groups(s, ax % len(s))
@@ -225,9 +228,11 @@ def gen_cases(rng, tier):
                 if kind == "trace0":
                     combos.append((s, 0, 0, 1))
                     continue
+                # non-negative axis1/axis2 only: negative ones are not normalised by view::diagonal (C04's operation), which
+                # would mask what trace itself does
                 for a1, a2 in itertools.permutations(range(d), 2):
                     for off in range(-(s[a1] - 1), s[a2]):
-                        combos.append((s, off, a1 if rng.random() < 0.6 else a1 - d, a2 if rng.random() < 0.6 else a2 - d))
+                        combos.append((s, off, a1, a2))
             if kind == "trace":
                 combos = rng.sample(combos, min(len(combos), 40 if quick else 600))
             for s, off, a1, a2 in combos:
@@ -352,8 +357,10 @@ def parse_x(x):
 
 
 def argclass(o, m):
-    parts = ["dim%d" % len(m["shape"])]
+    """coarse class of the arguments: how the axis is given, whether the folded group has one or several elements, run-time keepdims value"""
+    parts = []
     ax = m.get("axis", "-")
+    dim = len(m["shape"])
     if ax is None:
         parts.append("none")
     elif isinstance(ax, int):
@@ -362,8 +369,15 @@ def argclass(o, m):
         parts.append("single" if len(ax) == 1 else "multi")
         if any(a < 0 for a in ax):
             parts.append("neg")
-        if list(ax) != sorted(ax, key=lambda a: a % len(m["shape"])):
+        if [a % dim for a in ax] != sorted(a % dim for a in ax):
             parts.append("unsorted")
+    else:
+        parts.append("-")
+    if o["kind"] in ("reduce", "reduce2", "default", "var", "norm"):
+        gs = 1
+        for a in set(norm_axes(ax, dim)):
+            gs *= m["shape"][a]
+        parts.append("g1" if gs == 1 else "gN")
     if o.get("keep") == "R":
         parts.append("kd%d" % (1 if m.get("keepdims") else 0))
     return ":".join(parts)
@@ -412,8 +426,9 @@ def oracle(ctx, cr):
     # ---- shape (NumPy)
     eshape = tuple(ref.shape)
     if len(eshape) == 0:
-        if not got.get("scalar"):
-            ctx.violation("%s:shape" % base, "%s: result has shape %s, NumPy gives a scalar" % (desc, got.get("shape")), det)
+        # NumPy's 0-d result: the library gives a num (axis=None known statically) or a 0-dim view (run-time axis)
+        if not got.get("scalar") and list(got["shape"]) != []:
+            ctx.violation("%s:shape" % base, "%s: result has shape %s, NumPy gives a 0-d result" % (desc, got.get("shape")), det)
             return
     elif got.get("scalar") or tuple(got["shape"]) != eshape:
         ctx.violation("%s:shape" % base, "%s: result shape %s, NumPy %s" % (desc, "scalar" if got.get("scalar") else got["shape"], list(eshape)), det)
@@ -448,7 +463,7 @@ def oracle(ctx, cr):
         atol = rtol * max(1.0, scale) ** (2 if o["fam"] == "var" else 1)
         ok = np.abs(g - rr) <= rtol * np.abs(rr) + atol
         nb = np.argwhere(~ok).reshape(-1)
-    if len(nb):
+    if len(nb) and not bad:
         i = int(nb[0])
         ctx.violation("%s:numpy" % base, "%s: element %d is %r, NumPy reference %r (%d of %d differ)" % (desc, i, vals[i], r[i], len(nb), n), det)
     src_n = int(np.prod(m["shape"]))
